@@ -637,6 +637,9 @@ def m_allany(I, e, args, kws):
     if pred is not None and pred[0] in ("isneginf", "isposinf", "isinf") and pred[1].tag("finite") is not None:
         out.const = not bool(pred[1].tag("finite")) if pred[1].tag("finite") else U
     cmp_ = x.tag("cmp")
+    if cmp_ is not None and name == "all" and cmp_[0] == "Eq" and cmp_[2].known and cmp_[2].const == 0 \
+            and axis_arg(args, kws, 1, None) in (-1, 1):
+        out.tags["zero_row_mask_of"] = cmp_[1].term        # rows that are entirely zero
     if cmp_ is not None and name == "all" and cmp_[0] == "GtE" and cmp_[2].known and cmp_[2].const == 0:
         if cmp_[1].sign in ("NONNEG", "POS"):
             out.const = True
@@ -959,6 +962,7 @@ def m_norm(I, e, args, kws):
         out.shape = reduce_shape(x.shape, ax if ax is not None else "?", False)
     o = arg(args, kws, 1, "ord")
     out.tags["norm_ord"] = o.const if (o is not None and o.known) else ("default" if o is None else None)
+    out.tags["norm_of"] = x.term
     for v in kws.values():
         f = v.flat()
         out.shp |= f.data | f.shp
@@ -1086,6 +1090,7 @@ def m_default_rng(I, e, args, kws):
 
 def rng_method(I, e, base, attr, args, kws):
     out = mk([base] + args + list(kws.values()), fresh="FRESH", tags={"kind": "ndarray"})
+    out.term = ("draw", I.fr.fn.qual, e.lineno, e.col_offset)
     I.emit("random_draw", e, gen=base, method=attr, args=args, kws=kws, result=out, via="method")
     k = base.tag("kind")
     if k == "rng":
